@@ -1,3 +1,416 @@
-import Lomond.Model.Core
+/-
+  C08 — the closing handshake completes correctly in both directions.
+  Property theorems only (helper lemmas: Proofs/Closing.lean, built on Proofs/Step.lean).
+
+  Vocabulary (Proofs/Closing.lean).  The trace of a connection records everything handed to
+  `sendall` (`.wr bytes` / `.wrz opcode plain` on success, `.wrFail bytes` when `sendall` raised),
+  every event given to the application (`.ev e`) and the result of every API call the application
+  made (`.res r`).  `Obs.isWrite` = any of the three write entries; `Obs.isClose` = a write entry
+  (successful **or failed**) whose first header byte has opcode 8; `Obs.isCloseWr` / `Obs.isDataWr`
+  = a successfully written Close / data frame (opcode 0, 1, 2, or a compressed frame).
+  `Open s` = socket present, not closing, not closed; `Shut s` = closing or closed.
+  The application is any `React`, the environment any script, the configuration any `Cfg`
+  (timers, auto-pong, write failures, masking keys, both variants of every known finding).
+-/
+import Lomond.Proofs.Closing
+
 namespace Lomond.C08
+open Lomond Lomond.Core
+
+/-! ## 1. `close()` writes exactly one Close frame -/
+
+/-- **`close(code, reason)` on a connected websocket** (socket present, not closing, not closed)
+    with arguments that fit a control frame, when `sendall` succeeds: exactly one entry is added
+    to the trace — the masked Close frame `88 80+len key masked(code ++ reason)` built with the
+    next masking key —, the call returns normally, `closing` is set and the time of the Close is
+    recorded (for the close timeout).  Nothing else changes. -/
+theorem close_writes_one_frame (code : Option Nat) (reason : Arg) (rb : Bytes) (s : Sys)
+    (hr : reasonBytes reason = some rb) (ha : CloseArgsOk code rb) (ho : Open s)
+    (hw : s.cfg.writeFails s.writeCtr = false) :
+    Frame.build 8 (buildClosePayload code rb) (s.cfg.maskKey s.keyCtr)
+        = some (closeFrame (buildClosePayload code rb) (s.cfg.maskKey s.keyCtr)) ∧
+    wsClose code reason s =
+      .ok .ok { s with keyCtr := s.keyCtr + 1, writeCtr := s.writeCtr + 1,
+                       trace := .wr (closeFrame (buildClosePayload code rb) (s.cfg.maskKey s.keyCtr)) :: s.trace,
+                       closing := true, sentCloseTime := some (sessionTime s) } :=
+  ⟨build_close _ _ ha.2, wsClose_open code reason rb s hr ha ho hw⟩
+
+/-- non-vacuity: `close(1000, b'bye')` on a connected websocket; the frame on the wire -/
+example : (wsClose (some 1000) (.bytes [98, 121, 101]) Ex.opened).state.trace
+    = [.wr [136, 133, 0, 0, 0, 0, 3, 232, 98, 121, 101]] := by
+  rw [(close_writes_one_frame (some 1000) (.bytes [98, 121, 101]) [98, 121, 101] Ex.opened rfl
+        ⟨fun c h => by cases h; decide, by decide⟩ ⟨rfl, rfl, rfl⟩ rfl).2]
+  decide
+
+/-- **calling `close()` again** — while closing or once closed, with any arguments (valid or
+    not) — returns normally and changes nothing: no second Close frame. -/
+theorem close_again_is_noop (code : Option Nat) (reason : Arg) (s : Sys) (h : Shut s) :
+    wsClose code reason s = .ok .ok s :=
+  wsClose_again code reason s h
+
+/-- non-vacuity: a second `close()`, even with arguments `close()` would reject, is a no-op -/
+example : wsClose (some 70000) .other Ex.closing = .ok .ok Ex.closing :=
+  close_again_is_noop _ _ _ (Or.inl rfl)
+
+/-! ## 2. Every later send is refused and writes nothing -/
+
+/-- **`session.write` / `send` / `send_compressed` once closing or closed**: the answer is the
+    WebSocketError `refusal s` — `WebSocketClosing` while closing, `WebSocketClosed` once closed
+    (`WebSocketUnavailable` if there is no socket any more) — and the state, in particular the
+    trace, is unchanged (`sendFrame` has drawn a masking key, nothing else). -/
+theorem sends_refused_after_close (s : Sys) (h : Shut s) :
+    (∀ d z, write d z s = .ok (refusal s) s) ∧
+    (∀ op pl c, ∃ r, sendFrame op pl c s = .ok r { s with keyCtr := s.keyCtr + 1 } ∧ r ≠ .ok ∧
+        (pl.length < 2 ^ 63 → r = refusal s)) ∧
+    (∀ op pl c, ∃ r, sendData op pl c s = .ok r { s with keyCtr := s.keyCtr + 1 } ∧ r ≠ .ok ∧
+        (pl.length < 2 ^ 63 → r = refusal s)) ∧
+    wsError (refusal s) = true ∧
+    (s.sockOpen = true → s.closed = false → refusal s = .wsClosing) ∧
+    (s.sockOpen = true → s.closed = true → refusal s = .wsClosed) :=
+  ⟨fun d z => write_refused d z s h, fun op pl c => sendFrame_refused op pl c s h,
+   fun op pl c => sendData_refused op pl c s h, refusal_wsError s, refusal_closing s, refusal_closed s⟩
+
+/-- non-vacuity: the three answers -/
+example : write [1, 2] none Ex.closing = .ok .wsClosing Ex.closing :=
+  (sends_refused_after_close Ex.closing (Or.inl rfl)).1 _ _
+example : refusal { Ex.opened with closed := true } = .wsClosed ∧
+    refusal { Ex.closing with sockOpen := false } = .wsUnavailable := by decide
+
+/-- **the application's send calls** (`send_text`, `send_binary`, `send_ping`, `send_pong`, any
+    arguments) made once closing or closed: the call fails (its recorded result is never `ok`),
+    the only trace entry added is that result — no `.wr`, `.wrz`, `.wrFail` —, and for arguments
+    the API accepts the failure is the WebSocketError `refusal s`. -/
+theorem send_calls_refused_after_close (a : Act) (hs : a.isSend = true) (s : Sys) (h : Shut s) :
+    ∃ r k, doAct a s = .ok () { s with keyCtr := k, trace := .res r :: s.trace } ∧ r ≠ .ok ∧
+      (a.sendOk = true → r = refusal s ∧ wsError r = true) := by
+  obtain ⟨r, k, h1, h2, h3⟩ := doAct_send_refused a hs s h
+  exact ⟨r, k, h1, h2, fun ok => ⟨h3 ok, by rw [h3 ok]; exact refusal_wsError s⟩⟩
+
+/-- non-vacuity: `send_text('hi')` after `close()` -/
+example : (Act.sendText (.str [104, 105]) false).isSend = true ∧
+    (Act.sendText (.str [104, 105]) false).sendOk = true ∧ Shut Ex.closing ∧
+    (doAct (.sendText (.str [104, 105]) false) Ex.closing).state.trace = [.res .wsClosing] :=
+  ⟨rfl, by decide, Or.inl rfl, by decide⟩
+
+/-! ## 3. At most one Close frame per connection, and nothing after it -/
+
+/-- **Single Close, nothing after it — every single-threaded history.**  For every configuration,
+    every application (closing at any event, including before `Ready`, sending at any event,
+    closing twice, abandoning the loop, …) and every environment script (any frames in any
+    segmentation, server Close with any payload, EOF, errors, timeouts, failing writes), the
+    trace of the whole connection, read oldest first, contains **at most one** Close frame handed
+    to `sendall` (counting failed attempts), and **after it nothing at all** is handed to
+    `sendall` — no data frame, no control frame, no second Close.
+    `hreq`: the upgrade request (the one write that is not a frame) does not start with a byte
+    whose low nibble is 8; the real request starts with `G`. -/
+theorem single_close_no_data_after (cfg : Cfg) (react : React) (env : List EnvStep)
+    (hreq : isCloseBytes cfg.request = false) :
+    ((runAll cfg react env).trace.reverse.filter Obs.isClose).length ≤ 1 ∧
+    ∀ pre c post, (runAll cfg react env).trace.reverse = pre ++ c :: post → c.isClose = true →
+      ∀ o ∈ post, o.isWrite = false :=
+  quiet_oldest_first _ (runAll_inv cfg react env hreq).1
+
+/-- non-vacuity: a whole connection in which the application closes at `Ready`, immediately tries
+    to send (refused), receives a Text while closing (delivered), tries to send and to close again
+    (refused / no-op), and the server's Close ends it gracefully: one Close frame, nothing after -/
+example : isCloseBytes Ex.cfg.request = false ∧
+    (runAll Ex.cfg Ex.reactClient Ex.envClient).trace.reverse =
+      [.ev .connecting, .wr [71, 69, 84], .ev (.connected false), .ev (.ready none false),
+       .wr [136, 133, 0, 0, 0, 0, 3, 232, 98, 121, 101], .res .ok, .res .wsClosing, .ev .poll, .tick 1,
+       .ev (.text [104, 105]), .res .wsClosing, .res .ok, .tick 2, .ev (.closed (some 1000) []),
+       .sockClose, .ev (.disconnected "closed" true), .selClose] ∧
+    ((runAll Ex.cfg Ex.reactClient Ex.envClient).trace.reverse.filter Obs.isClose).length = 1 := by
+  decide +kernel
+
+/-- `hreq` holds for every request the library builds: `WebSocket.build_request()` starts with
+    `GET ` (whatever the resource, host, key, protocols, custom headers, compression offer) -/
+theorem built_request_is_not_a_close (rc : Http.ReqCfg) : isCloseBytes (Http.buildRequest rc) = false :=
+  buildRequest_not_close rc
+
+/-- non-vacuity / use: any connection whose request was built by the library -/
+example (rc : Http.ReqCfg) (cfg : Cfg) (react : React) (env : List EnvStep) :
+    ((runAll { cfg with request := Http.buildRequest rc } react env).trace.reverse.filter Obs.isClose).length ≤ 1 :=
+  (single_close_no_data_after _ react env (built_request_is_not_a_close rc)).1
+
+/-- the same in the property's words: at most one Close frame is written, and no data frame
+    (opcode 0/1/2 or compressed) is written after it -/
+theorem no_data_frame_after_close (cfg : Cfg) (react : React) (env : List EnvStep)
+    (hreq : isCloseBytes cfg.request = false) :
+    ((runAll cfg react env).trace.reverse.filter Obs.isCloseWr).length ≤ 1 ∧
+    ∀ pre c post, (runAll cfg react env).trace.reverse = pre ++ c :: post → c.isCloseWr = true →
+      ∀ o ∈ post, o.isDataWr = false ∧ o.isCloseWr = false := by
+  obtain ⟨h1, h2⟩ := single_close_no_data_after cfg react env hreq
+  refine ⟨Nat.le_trans ?_ h1, ?_⟩
+  · exact filter_length_mono _ _ (fun o h => Obs.isCloseWr_isClose h) _
+  · intro pre c post e hc o ho
+    have hw := h2 pre c post e (Obs.isCloseWr_isClose hc) o ho
+    constructor
+    · cases hd : o.isDataWr
+      · rfl
+      · rw [Obs.isDataWr_isWrite hd] at hw; cases hw
+    · cases hd : o.isCloseWr
+      · rfl
+      · rw [Obs.isClose_isWrite (Obs.isCloseWr_isClose hd)] at hw; cases hw
+
+/-- the invariant behind it, from **any** state: if so far nothing was written after a Close
+    frame and a written Close frame implies closing-or-closed (`Inv`), the same holds after any
+    further run of the event loop; and "closing or closed" never drops back to "open" while the
+    connection lives. -/
+theorem closing_invariant_preserved (env : List EnvStep) (s : Sys) :
+    (Inv s → Inv (loop env s).state) ∧ (Shut s → Shut (loop env s).state) :=
+  ⟨(cl_loop env s).inv, (cl_loop env s).keep⟩
+
+/-- non-vacuity: the invariant holds in a fresh connected state, and `Shut` in a closing one -/
+example : Inv Ex.opened ∧ Shut Ex.closing := ⟨⟨rfl, fun h => by cases h⟩, Or.inl rfl⟩
+
+/-! ## 4. The server closes first -/
+
+/-- **a received Close frame reaches `_on_close`** with the code and reason of its payload, in
+    every state (stream layer: control frames bypass the fragment list; message layer:
+    `Close.from_payload`); afterwards `WebSocket.feed` goes on iff the websocket is not closed. -/
+theorem close_frame_reaches_on_close (f : Frame) (hop : f.opcode = 8) (code : Option Nat) (reason : List Nat)
+    (hp : closeFromPayload f.payload = .ok (.close code reason)) (s : Sys)
+    (hz : f.rsv1 = 0 ∨ s.decompress = false) :
+    onOut (.frame f) s = (do onClose code reason; notClosed : M Bool) s :=
+  onOut_close_frame f hop code reason hp s hz
+
+/-- non-vacuity: Close 1000 arriving on an open websocket: `Closing`, then the echo -/
+example : (onOut (.frame Ex.closeFrame1000) Ex.opened).state.trace =
+    [.wr [136, 130, 0, 0, 0, 0, 3, 232], .ev (.closing (some 1000) [])] := by decide
+
+/-- **The `Closing` event and the application's sends during it.**  When a Close with an
+    acceptable code arrives on a connected websocket, `_on_close` first hands `Closing(code,
+    reason)` to the application *with the websocket still open*: the reaction starts in the state
+    `handed (.closing code reason) s`, which is `Open`; and from any `Open` state (so for each send
+    of the reaction in turn) a send call is written — one frame, result `ok` — and leaves the
+    websocket `Open`. -/
+theorem server_close_closing_event (code : Option Nat) (reason : List Nat) (s : Sys) (hv : ValidCode code)
+    (ho : Open s) :
+    onClose code reason s =
+      (do feedYield true (.closing code reason)
+          let r ← wsClose code (.str reason)
+          raiseIfArgError r
+          modS fun s => { s with closing := true } : M Unit) s ∧
+    feedYield true (.closing code reason) s
+        = tryC reactThenRegular (afterYield true) (handed (.closing code reason) s) ∧
+    Open (handed (.closing code reason) s) ∧
+    (handed (.closing code reason) s).trace = .ev (.closing code reason) :: s.trace ∧
+    ∀ (a : Act) (s' : Sys) (o : Obs), Open s' → s'.cfg.writeFails s'.writeCtr = false → a.sent s' = some o →
+      doAct a s' = .ok () { s' with keyCtr := s'.keyCtr + 1, writeCtr := s'.writeCtr + 1,
+                                    trace := .res .ok :: o :: s'.trace } ∧
+      Open { s' with keyCtr := s'.keyCtr + 1, writeCtr := s'.writeCtr + 1, trace := .res .ok :: o :: s'.trace } :=
+  ⟨onClose_open_eq code reason s hv ho.2.1 ho.2.2, (closing_event_open code reason s ho).1,
+   (closing_event_open code reason s ho).2, rfl,
+   fun a s' o ho' hw hs => ⟨doAct_send_open a s' o ho' hw hs, ho'⟩⟩
+
+/-- non-vacuity: the frame a `send_binary` made during `Closing` puts on the wire -/
+example : ValidCode (some 1000) ∧ Open (Ex.opened Ex.reactServer) ∧
+    (Act.sendBinary (.bytes [7]) false).sent (handed (.closing (some 1000) [111, 107]) (Ex.opened Ex.reactServer))
+      = some (.wr [130, 129, 0, 0, 0, 0, 7]) :=
+  ⟨fun c h => by cases h; decide, ⟨rfl, rfl, rfl⟩, by decide⟩
+
+/-- **The echo.**  Once the `Closing` event has been handled (state `s1`):
+    * if the websocket is still open, **exactly one** Close frame is written, carrying the
+      received code and the re-encoded reason, `closing` is set and the close time recorded;
+    * if the application itself called `close()` during the event (or the websocket got closed),
+      nothing more is written — its Close is the only one.
+    Either way later sends are refused (§2) and no second Close can follow (§3). -/
+theorem server_close_echo (code : Option Nat) (reason : List Nat) (s s1 : Sys) (hv : ValidCode code)
+    (hcg : s.closing = false) (hcd : s.closed = false)
+    (hy : feedYield true (.closing code reason) s = .ok () s1) :
+    (Open s1 → s1.cfg.writeFails s1.writeCtr = false → CloseArgsOk code (encodeReplace reason) →
+      onClose code reason s =
+        .ok () { s1 with keyCtr := s1.keyCtr + 1, writeCtr := s1.writeCtr + 1,
+                         trace := .wr (closeFrame (buildClosePayload code (encodeReplace reason))
+                                        (s1.cfg.maskKey s1.keyCtr)) :: s1.trace,
+                         closing := true, sentCloseTime := some (sessionTime s1) }) ∧
+    (Shut s1 → onClose code reason s = .ok () { s1 with closing := true }) :=
+  ⟨fun ho hw ha => onClose_echo code reason s s1 hv hcg hcd hy ho hw ha,
+   fun hs => onClose_echo_skipped code reason s s1 hv hcg hcd hy hs⟩
+
+/-- non-vacuity: server Close 1000 `ok`; the application sends one Binary during `Closing`
+    (written), then the echo with the same code and reason -/
+example : ∃ s1, feedYield true (.closing (some 1000) [111, 107]) (Ex.opened Ex.reactServer) = .ok () s1 ∧ Open s1 ∧
+    s1.cfg.writeFails s1.writeCtr = false ∧ CloseArgsOk (some 1000) (encodeReplace [111, 107]) ∧
+    (onClose (some 1000) [111, 107] (Ex.opened Ex.reactServer)).state.trace =
+      [.wr [136, 132, 0, 0, 0, 0, 3, 232, 111, 107], .res .ok, .wr [130, 129, 0, 0, 0, 0, 7],
+       .ev (.closing (some 1000) [111, 107])] :=
+  ⟨_, rfl, ⟨rfl, rfl, rfl⟩, rfl, ⟨fun c h => by cases h; decide, by decide⟩, by decide⟩
+
+/-- **The echo carries what was received** (`encode (decode reason) = reason`): the code and
+    reason that `Close.from_payload` extracts from a received Close payload rebuild exactly that
+    payload; the reason is free of surrogates (so `errors='replace'` changes nothing) and the code
+    fits 16 bits; hence with the control-frame limit respected they are acceptable arguments for
+    the echo. -/
+theorem echo_matches_received (payload : Bytes) (hwf : Bytes.WF payload) (code : Option Nat)
+    (reason : List Nat) (h : closeFromPayload payload = .ok (.close code reason)) :
+    buildClosePayload code (encodeReplace reason) = payload ∧
+    encodeReplace reason = Utf8.encode reason ∧
+    (payload.length ≤ 125 → CloseArgsOk code (encodeReplace reason)) := by
+  obtain ⟨h1, h2, h3⟩ := closeFromPayload_echo payload hwf code reason h
+  exact ⟨h1, encodeReplace_eq _ h2, fun hl => ⟨h3, by rw [h1]; exact hl⟩⟩
+
+/-- non-vacuity: payload `03 E8 'o' 'k'` -/
+example : closeFromPayload [3, 232, 111, 107] = .ok (.close (some 1000) [111, 107]) ∧
+    Bytes.WF [3, 232, 111, 107] := ⟨rfl, by decide⟩
+
+/-- **a Close without a code is echoed with an empty payload** -/
+theorem empty_close_echo (reason : List Nat) (key : Bytes) :
+    closeFromPayload [] = .ok (.close none []) ∧
+    closeFrame (buildClosePayload none (encodeReplace reason)) key = 136 :: 128 :: (key ++ []) :=
+  ⟨rfl, rfl⟩
+
+/-- non-vacuity: a whole connection in which the server sends an empty Close: `Closing(None, '')`,
+    the empty echo `88 80 key`, EOF, graceful end -/
+example : (runAll Ex.cfg (fun _ => []) Ex.envServerEmpty).trace.reverse =
+    [.ev .connecting, .wr [71, 69, 84], .ev (.connected false), .ev (.ready none false), .ev .poll, .tick 1,
+     .ev (.closing none []), .wr [136, 128, 0, 0, 0, 0], .tick 2, .sockClose,
+     .ev (.disconnected "closed" true), .selClose] := by
+  decide +kernel
+
+/-- **…and ends gracefully when the server drops the connection.**  While closing (or closed),
+    EOF — or a vanished socket — is not an error: the loop cycle that receives it (its
+    housekeeping `regularTop` having raised nothing, e.g. no close timeout) ends the loop
+    normally, `run()` takes its `else:` branch: the socket is closed, then
+    `Disconnected('closed', graceful=True)` is handed to the application; the connection ends with
+    the socket closed. -/
+theorem server_close_then_eof_graceful (dt : Nat) (rest : List EnvStep) (s s2 : Sys)
+    (hcd : s.closed = false) (hreg : regularTop (tick s dt) = .ok () s2) (hs : Shut s2) :
+    onEof s2 = .ok false s2 ∧
+    loop (.wait dt (some .eof) :: rest) s = .ok () s2 ∧
+    runBody (.wait dt (some .eof) :: rest) s =
+      doActs (s2.react (.disconnected "closed" true :: s2.hist))
+        (handed (.disconnected "closed" true) (sockClosed s2)) ∧
+    (runBody (.wait dt (some .eof) :: rest) s).state.sockOpen = false ∧
+    ∃ l, (runBody (.wait dt (some .eof) :: rest) s).state.trace
+          = l ++ .ev (.disconnected "closed" true) :: (sockClosed s2).trace := by
+  have hl := loop_eof_shut dt rest s s2 hcd hreg hs
+  have hb := runBody_of_loop_ok _ s s2 hl
+  refine ⟨onEof_shut s2 hs, hl, ?_, ?_, ?_⟩
+  · rw [hb]; exact onLoopEnd_none_eq s2
+  · rw [hb]; exact (onLoopEnd_none_state s2).1
+  · rw [hb]; exact (onLoopEnd_none_state s2).2
+
+/-- non-vacuity: EOF one tick after the echo -/
+example : loop [.wait 1 (some .eof)] (Ex.closing Ex.reactServer) = .ok () (tick (Ex.closing Ex.reactServer) 1) :=
+  (server_close_then_eof_graceful 1 [] (Ex.closing Ex.reactServer) _ rfl rfl (Or.inl rfl)).2.1
+example : (runBody [.wait 1 (some .eof)] (Ex.closing Ex.reactServer)).state.trace =
+    [.res .wsUnavailable, .ev (.disconnected "closed" true), .sockClose, .tick 1] := by decide
+
+/-- non-vacuity: the whole server-initiated handshake — `Closing`, a send during it (written),
+    the echo, EOF, graceful `Disconnected`; a send at `Disconnected` is refused -/
+example : (runAll Ex.cfg Ex.reactServer Ex.envServer).trace.reverse =
+    [.ev .connecting, .wr [71, 69, 84], .ev (.connected false), .ev (.ready none false), .ev .poll, .tick 1,
+     .ev (.closing (some 1000) [111, 107]), .wr [130, 129, 0, 0, 0, 0, 7], .res .ok,
+     .wr [136, 132, 0, 0, 0, 0, 3, 232, 111, 107], .tick 2, .sockClose,
+     .ev (.disconnected "closed" true), .res .wsUnavailable, .selClose] := by
+  decide +kernel
+
+/-! ## 5. The client closes first -/
+
+/-- **The server's Close arrives while closing.**  For a Close frame `f` (any acceptable code,
+    empty payload included) received in a state with `closing = true`:
+    * it reaches `_on_close`, which hands `Closed(code, reason)` to the application;
+    * if handling it raises nothing, `closing := false, closed := true`;
+    * in **every** outcome (including an exception or abandonment while handling `Closed`) the
+      websocket ends up closed and not closing, and `WebSocket.feed` stops iterating (`break`). -/
+theorem client_close_then_server_close (f : Frame) (hop : f.opcode = 8) (code : Option Nat) (reason : List Nat)
+    (hp : closeFromPayload f.payload = .ok (.close code reason)) (s : Sys)
+    (hz : f.rsv1 = 0 ∨ s.decompress = false) (hv : ValidCode code)
+    (hcg : s.closing = true) (hcd : s.closed = false) :
+    onOut (.frame f) s = (do onClose code reason; notClosed : M Bool) s ∧
+    feedYield true (.closed code reason) s
+        = tryC reactThenRegular (afterYield true) (handed (.closed code reason) s) ∧
+    (handed (.closed code reason) s).trace = .ev (.closed code reason) :: s.trace ∧
+    (∀ s1, feedYield true (.closed code reason) s = .ok () s1 →
+        onClose code reason s = .ok () { s1 with closing := false, closed := true }) ∧
+    (onOut (.frame f) s).state.closed = true ∧
+    (∀ b s', onOut (.frame f) s = .ok b s' → b = false) := by
+  obtain ⟨h1, h2, _⟩ := onClose_when_closing code reason s hv hcg hcd
+  obtain ⟨h3, h4⟩ := onOut_close_when_closing f hop code reason hp s hz hv hcg hcd
+  exact ⟨onOut_close_frame f hop code reason hp s hz, h1, rfl, h2, h3, h4⟩
+
+/-- non-vacuity: the server's Close 1000 arriving after `close()` -/
+example : (onOut (.frame Ex.closeFrame1000) Ex.closing).state.closed = true :=
+  (client_close_then_server_close Ex.closeFrame1000 rfl (some 1000) [] rfl Ex.closing (Or.inl rfl)
+    (fun c h => by cases h; decide) rfl rfl).2.2.2.2.1
+example : (onOut (.frame Ex.closeFrame1000) Ex.closing).state.trace = [.ev (.closed (some 1000) [])] := by decide
+
+/-- **…then the loop stops and the connection ends gracefully.**  A loop cycle after which the
+    websocket is closed (the cycle that fed the server's Close) ends the `while not is_closed`
+    loop normally — as does any later entry into the loop —, and `run()` closes the socket and
+    then yields `Disconnected('closed', graceful=True)`. -/
+theorem closed_then_graceful_disconnect (dt : Nat) (o : RecvOutcome) (rest : List EnvStep) (s s2 s3 : Sys)
+    (b : Bool) (hcd : s.closed = false) (hreg : regularTop (tick s dt) = .ok () s2)
+    (hrecv : recvStep o s2 = .ok b s3) (h3 : s3.closed = true) :
+    loop (.wait dt (some o) :: rest) s = .ok () s3 ∧
+    (∀ env, loop env s3 = .ok () s3) ∧
+    runBody (.wait dt (some o) :: rest) s =
+      doActs (s3.react (.disconnected "closed" true :: s3.hist))
+        (handed (.disconnected "closed" true) (sockClosed s3)) ∧
+    (runBody (.wait dt (some o) :: rest) s).state.sockOpen = false ∧
+    ∃ l, (runBody (.wait dt (some o) :: rest) s).state.trace
+          = l ++ .ev (.disconnected "closed" true) :: (sockClosed s3).trace := by
+  have hl := loop_step_closed dt o rest s s2 s3 b hcd hreg hrecv h3
+  have hb := runBody_of_loop_ok _ s s3 hl
+  refine ⟨hl, fun env => loop_closed env s3 h3, ?_, ?_, ?_⟩
+  · rw [hb]; exact onLoopEnd_none_eq s3
+  · rw [hb]; exact (onLoopEnd_none_state s3).1
+  · rw [hb]; exact (onLoopEnd_none_state s3).2
+
+/-- non-vacuity: the loop cycle that reads the server's Close `88 02 03 E8` while closing -/
+example : regularTop (tick Ex.closing 1) = .ok () (tick Ex.closing 1) ∧
+    (match recvStep (.data [0x88, 2, 3, 232]) (tick Ex.closing 1) with
+     | .ok _ s3 => s3.closed
+     | .err _ _ => false) = true ∧
+    (runBody [.wait 1 (some (.data [0x88, 2, 3, 232]))] Ex.closing).state.trace =
+      [.ev (.disconnected "closed" true), .sockClose, .ev (.closed (some 1000) []), .tick 1] :=
+  ⟨rfl, by decide +kernel, by decide +kernel⟩
+
+/-! ## 6. Incoming messages are still delivered while closing -/
+
+/-- **`WebSocket.feed`'s dispatch of Text / Binary / Ping / Pong does not look at `closing`**:
+    in every state — in particular after `close()` — the message is handed to the application as
+    its event (`handed e s1`: trace and history extended), the application's reaction and
+    `_regular()` run next; `closing`/`closed` are unchanged by the delivery; on the way at most
+    the automatic Pong is attempted, and while closing not even that reaches the socket.
+    (`hp`: a Ping longer than 125 bytes — only reachable in the unrepaired D1 variant — makes
+    the auto-pong raise before the event.) -/
+theorem messages_still_delivered_while_closing (m : Msg) (e : Event) (hm : msgEvent m = some e) (s : Sys)
+    (hp : ∀ d, m = .ping d → s.cfg.autoPong = true → d.length ≤ 125) :
+    ∃ s1, onEvent e s = .ok () s1 ∧ s1.hist = s.hist ∧ s1.react = s.react ∧
+      s1.closing = s.closing ∧ s1.closed = s.closed ∧ s1.sockOpen = s.sockOpen ∧
+      (∃ l, s1.trace = l ++ s.trace ∧ l.length ≤ 1) ∧ (Shut s → s1.trace = s.trace) ∧
+      onMessage m s = tryC reactThenRegular (afterYield true) (handed e s1) :=
+  onMessage_delivers m e hm s hp
+
+/-- non-vacuity: a Text while closing is delivered (the reply the application attempts is
+    refused); a Ping while closing is delivered and no Pong is written; the same Ping on an open
+    websocket is answered first -/
+example : (onMessage (.text [104, 105]) (Ex.closing Ex.reactText)).state.trace
+      = [.res .wsClosing, .ev (.text [104, 105])] ∧
+    (onMessage (.ping [1]) (Ex.closing Ex.reactText)).state.trace = [.ev (.ping [1])] ∧
+    (onMessage (.ping [1]) (Ex.opened Ex.reactText)).state.trace
+      = [.ev (.ping [1]), .wr [138, 129, 0, 0, 0, 0, 1]] := by decide
+
+/-! ## 7. `close()` before `Ready` -/
+
+/-- **`close()` at `Connecting`** (no socket yet): nothing is written (`WebSocketUnavailable` is
+    swallowed), the websocket is closing; the upgrade request is then refused and the connection
+    attempt ends with `ConnectFail('request-failed')` after closing the socket.
+    (`close()` at `Connected`/later is the ordinary case of §1: the socket exists, one Close
+    frame is written; §3 bounds it to one and §2 refuses later sends.) -/
+theorem close_before_connect (code : Option Nat) (reason : Arg) (rb : Bytes) (s : Sys) (proxy : Bool)
+    (hr : reasonBytes reason = some rb) (ha : CloseArgsOk code rb)
+    (hso : s.sockOpen = false) (hcg : s.closing = false) (hcd : s.closed = false) :
+    ∃ s', wsClose code reason s = .ok .ok s' ∧ s'.trace = s.trace ∧ Shut s' ∧
+      afterConnect proxy s' =
+        (do closeSocket; yieldEv (.connectFail "request-failed") : M Unit) { s' with sockOpen := true } := by
+  obtain ⟨s', h1, h2, h3⟩ := wsClose_no_socket code reason rb s hr ha hso hcg hcd
+  exact ⟨s', h1, h2, Or.inl h3, afterConnect_shut proxy s' (Or.inl h3)⟩
+
+/-- non-vacuity: a whole connection attempt in which the application closes at `Connecting` -/
+example : (runAll Ex.cfg Ex.reactEarly []).trace.reverse =
+    [.ev .connecting, .res .ok, .sockClose, .ev (.connectFail "request-failed")] := by decide
+
 end Lomond.C08
